@@ -631,6 +631,11 @@ func runSpan(x *idxCtx, n int) {
 				}
 				continue
 			}
+			if l == u {
+				// degenerate span: all elements are exactly l; the tie rule leaves index 0
+				x.bad("floats.NearestIdxForSpan", "l==u", "not-lowest-index-on-degenerate-span", rp, "n=%d l=u=%v v=%v: got %d, NearestIdx(Span) = %d", n, l, v, got, wantIdx)
+				continue
+			}
 			// finite: got must be (within rounding) as near to v as the nearest
 			// ideal point l + i(u-l)/(n-1). Exact arithmetic on the ideal points.
 			if !nearlyNearest(n, l, u, v, got) {
